@@ -559,7 +559,7 @@ what reaches fd 1 is, batch by batch and in order, a PREFIX of each batch — no
 twice or out of order; only a hard error (EPIPE, EBADF, EIO: stdout is gone) drops the rest of
 that one batch.  Without a hard error (short counts, EINTR, EAGAIN on a non-blocking pipe) the
 stream is exactly the concatenation of the rendered records. -/
-theorem C09_stdout_faults (bs : List (List Bytes × List WAns)) :
+theorem C09_stdout_faults_write_only (bs : List (List Bytes × List WAns)) :
     (∃ outs : List Bytes, stdoutRun bs = outs.flatten ∧ outs.length = bs.length ∧
         ∀ i (h : i < bs.length) (h' : i < outs.length), outs[i] <+: (bs[i]).1.flatten) ∧
     ((∀ b ∈ bs, ∀ a ∈ b.2, a.soft = true) → stdoutRun bs = ((bs.map (·.1)).flatten).flatten) := by
@@ -590,6 +590,179 @@ theorem C09_stdout_short_write_counterexample :
     stdoutFlushAsFound .eintr ([[1, 2, 10], [3, 4, 10]] : List Bytes).flatten = [] ∧
     stdoutRun [([[1, 2, 10], [3, 4, 10]], [.acc 5, .eintr, .acc 9])] = [1, 2, 10, 3, 4, 10] := by
   decide
+
+
+/-! ### (g') the EAGAIN branch: the answer of `poll` is part of the oracle -/
+
+/-- the loop of `AsyncStdoutSink::flush()` is the write loop of the file sink once the `poll` answers are forgotten -/
+theorem stdoutLoop_toW : ∀ (os : List SAns) (data : Bytes),
+    stdoutLoop os data = writeLoop (os.map SAns.toW) data := by
+  intro os
+  induction os with
+  | nil => intro data; rfl
+  | cons a os ih =>
+    intro data
+    cases a <;> simp [stdoutLoop, writeLoop, SAns.toW, ih]
+
+theorem SAns.soft_toW (a : SAns) : a.toW.soft = a.soft := by cases a <;> rfl
+
+theorem stdoutRunP_eq (bs : List (List Bytes × List SAns)) :
+    stdoutRunP bs = stdoutRun (bs.map fun b => (b.1, b.2.map SAns.toW)) := by
+  simp only [stdoutRunP, stdoutRun, List.map_map]
+  congr 1
+  apply List.map_congr_left
+  intro b _
+  simp [stdoutBatchP, stdoutBatch, stdoutFlushP, stdoutFlush, stdoutLoop_toW]
+
+/-- **`AsyncStdoutSink` (after patches/C09-05) for EVERY answer of the kernel to every `write(1, …)` AND to every
+`poll(POLLOUT)` made after an EAGAIN** (ready, −1/EINTR because a handled signal landed on the back-end thread,
+−1/another errno, 0):
+* what reaches fd 1 is, batch by batch and in order, a PREFIX of each batch — nothing twice, nothing out of order;
+* without a hard error of `write` itself (EPIPE, EBADF, EIO: stdout is gone; or a `write` returning 0) the stream is
+  exactly the concatenation of the rendered records — whatever `poll` answered: EINTR from `poll` is retried like EINTR
+  from `write`, it never ends a batch;
+* the answers of `poll` have no influence at all on what is delivered. -/
+theorem C09_stdout_faults (bs : List (List Bytes × List SAns)) :
+    (∃ outs : List Bytes, stdoutRunP bs = outs.flatten ∧ outs.length = bs.length ∧
+        ∀ i (h : i < bs.length) (h' : i < outs.length), outs[i] <+: (bs[i]).1.flatten) ∧
+    ((∀ b ∈ bs, ∀ a ∈ b.2, a.soft = true) → stdoutRunP bs = ((bs.map (·.1)).flatten).flatten) ∧
+    (∀ f : PAns → PAns, stdoutRunP (bs.map fun b => (b.1, b.2.map (SAns.setPoll f))) = stdoutRunP bs) := by
+  refine ⟨?_, ?_, ?_⟩
+  · refine ⟨bs.map stdoutBatchP, rfl, by simp, ?_⟩
+    intro i h h'
+    simp only [List.getElem_map, stdoutBatchP, stdoutFlushP]
+    split
+    · exact List.nil_prefix
+    · rw [stdoutLoop_toW]; exact ⟨(writeLoop _ (bs[i]).1.flatten).2, writeLoop_split _ _⟩
+  · intro hs
+    rw [stdoutRunP_eq]
+    have := (C09_stdout_faults_write_only (bs.map fun b => (b.1, b.2.map SAns.toW))).2 (by
+      intro b hb a ha
+      obtain ⟨b0, hb0, rfl⟩ := List.mem_map.mp hb
+      obtain ⟨a0, ha0, rfl⟩ := List.mem_map.mp ha
+      rw [SAns.soft_toW]; exact hs b0 hb0 a0 ha0)
+    simpa [List.map_map, Function.comp_def] using this
+  · intro f
+    rw [stdoutRunP_eq, stdoutRunP_eq, List.map_map]
+    congr 1
+    apply List.map_congr_left
+    intro b _
+    simp only [Function.comp_def, List.map_map]
+    congr 1
+    apply List.map_congr_left
+    intro a _
+    cases a <;> rfl
+
+/-- **why `poll`'s failure must not end the loop** (the seeded change C09-6 `if (::poll(…) < 0) break;`): two records,
+`write` takes 5 of the 6 bytes, then EAGAIN; a signal interrupts the `poll`.  The loop that gives up cuts the second
+record and `cache_.clear()` drops its end; the loop as coded delivers both records whole. -/
+theorem C09_stdout_poll_break_counterexample :
+    stdoutLoopPollBreaks [.acc 5, .again .eintr, .acc 9] ([[1, 2, 10], [3, 4, 10]] : List Bytes).flatten = ([1, 2, 10, 3, 4], [10]) ∧
+    stdoutLoop [.acc 5, .again .eintr, .acc 9] ([[1, 2, 10], [3, 4, 10]] : List Bytes).flatten = ([1, 2, 10, 3, 4, 10], []) ∧
+    stdoutRunP [([[1, 2, 10], [3, 4, 10]], [.acc 5, .again .eintr, .again .err, .again .timeout, .eintr, .acc 9])] = [1, 2, 10, 3, 4, 10] := by
+  decide
+
+/-! ### (e'') the 1 KiB pieces -/
+
+/-- after patches/C09-08 every piece arrives whole, whatever its length and whatever the size of the stack buffer:
+no `piecesFit` hypothesis is left -/
+theorem C09_piece_whole (cap : Nat) (s : Bytes) : piece cap s = s := by
+  unfold piece snprintfInto
+  simp only
+  split
+  · rename_i h
+    have hc : cap ≠ 0 := by omega
+    simp only [hc, ↓reduceIte]
+    rw [List.take_of_length_le (show s.length ≤ cap - 1 by omega)]
+    simp
+  · simp
+
+/-- the async sinks render every record — names of ANY length — exactly as `render` says: one whole line -/
+theorem C09_render_pieces (r : Rec) : renderPieces r = render r := by
+  unfold renderPieces render
+  simp only [C09_piece_whole]
+  cases hf : r.func <;> cases hg : r.file <;> simp [Rec.funcPiece, Rec.filePiece, hf, hg]
+
+/-- the code as found: `append(buff, ret)`.  A piece shorter than the buffer is delivered whole; at exactly the buffer
+size its last byte (the blank that ends the piece) is replaced by the NUL; anything longer is read beyond the array. -/
+theorem C09_piece_overread_counterexample (cap : Nat) (s : Bytes) (hc : 0 < cap) :
+    (s.length < cap → pieceAsFound cap s = some s) ∧
+    (s.length = cap → pieceAsFound cap s = some (s.take (cap - 1) ++ [0])) ∧
+    (cap < s.length → pieceAsFound cap s = none) := by
+  unfold pieceAsFound snprintfInto
+  have hc' : cap ≠ 0 := by omega
+  simp only [hc', ↓reduceIte]
+  refine ⟨?_, ?_, ?_⟩
+  · intro h
+    rw [if_pos (by omega), List.take_of_length_le (show s.length ≤ cap - 1 by omega)]
+    simp
+  · intro h
+    rw [if_pos (by omega)]
+    apply congrArg
+    apply List.take_of_length_le
+    simp only [List.length_append, List.length_take, List.length_cons, List.length_nil]
+    omega
+  · intro h
+    rw [if_neg (by omega)]
+
+/-! ### (f''') reconfiguration of a file sink that is in use -/
+
+/-- `setFilePath` / `setFilePrefix` / `setFileSyncEnable` (also to the value the sink already has) close the open file.
+When nothing is cached at that moment every record written so far lies wholly in one CLOSED file, in order; the
+next batch starts a new file. -/
+theorem C09_file_reopen_whole_records_partial (max : Nat) (bs : List (List Bytes × FOracle)) :
+    let s := fileRunK max {} bs
+    s.cache = [] →
+    let s' := reopenK s
+    s'.cur = none ∧ s'.cache = [] ∧ s'.files.flatten = ((bs.map (·.1)).flatten).flatten ∧
+    ∃ (gc : List (List Bytes)) (rest : List Bytes), s'.closed = gc.map List.flatten ∧
+      gc.flatten ++ rest = (bs.map (·.1)).flatten ∧ rest.flatten = [] := by
+  intro s hc s'
+  obtain ⟨hall, ⟨gc, gcur, hcl, hrec, hdat⟩, _, _⟩ := C09_file_whole_records_faults max bs
+  have hall' : s.files.flatten ++ s.cache = ((bs.map (·.1)).flatten).flatten := hall
+  have hcl' : s.closed = gc.map List.flatten := hcl
+  have hdat' : curData s ++ s.cache = gcur.flatten := hdat
+  rw [hc, List.append_nil] at hall' hdat'
+  cases hcur : s.cur with
+  | none =>
+    have hs' : s' = s := by show reopenK s = s; simp [reopenK, hcur]
+    rw [hs']
+    refine ⟨hcur, hc, hall', gc, gcur, hcl', hrec, ?_⟩
+    rw [← hdat']; simp [curData, hcur]
+  | some d =>
+    have hs' : s' = { s with closed := s.closed ++ [d], cur := none } := by show reopenK s = _; simp [reopenK, hcur]
+    rw [hs']
+    refine ⟨rfl, hc, ?_, gc ++ [gcur], [], ?_, by simpa using hrec, rfl⟩
+    · rw [← hall']; simp [FileSt.files, hcur]
+    · simp only [hcl', List.map_append, List.map_cons, List.map_nil]
+      rw [← hdat']; simp [curData, hcur]
+
+-- OPEN  C09_file_reopen_whole_records: the same for a reconfiguration at ANY moment (a tail cached after a write error).
+-- False of the code as it is:
+
+/-- **a reconfiguration while a tail is cached splits a record**: limit 100, record `[1,2,3,10]`; `write` accepts 2 bytes,
+then fails hard (the tail `[3,10]` is retained, the file stays open); `setFilePath` (even to the same path) closes the
+file; the retry at `disable()` opens a new file and writes the tail there. -/
+theorem C09_file_reconf_tail_counterexample :
+    let s := fileRunK 100 {} [([[1, 2, 3, 10]], { writes := [.acc 2, .err] })]
+    s.cache = [3, 10] ∧ (disableK 100 s {}).files = [[1, 2, 3, 10]] ∧
+    (disableK 100 (reopenK s) {}).files = [[1, 2], [3, 10]] ∧
+    (fileRunR 100 [.batch [[1, 2, 3, 10]] { writes := [.acc 2, .err] }, .reopen, .batch [[5, 10]] {}]).2.files = [[1, 2], [3, 10, 5, 10]] := by
+  decide
+
+/-- `setFileMaxSize` only stores the limit: the history with a changed limit is the history of the batches, each under the
+limit in force; lowering it below the size of the open file closes that file after the NEXT complete batch, never
+in the middle of one -/
+theorem C09_file_setmax (m1 m2 : Nat) (b1 b2 : List (List Bytes × FOracle)) :
+    (fileRunR m1 ((b1.map fun b => FOp.batch b.1 b.2) ++ [.setMax m2] ++ (b2.map fun b => FOp.batch b.1 b.2))).2
+      = fileRunK m2 (fileRunK m1 {} b1) b2 := by
+  have key : ∀ (m : Nat) (bs : List (List Bytes × FOracle)) (s : FileSt),
+      (bs.map fun b => FOp.batch b.1 b.2).foldl fileStepR (m, s) = (m, fileRunK m s bs) := by
+    intro m bs
+    induction bs with
+    | nil => intro s; rfl
+    | cons b bs ih => intro s; simp only [List.map_cons, List.foldl_cons, fileStepR, fileRunK]; exact ih _
+  simp only [fileRunR, List.foldl_append, List.foldl_cons, List.foldl_nil, key, fileStepR]
 
 /-! ### (a') widths: `uint32_t buff_size` / `text_len`, `size_t len`, `int` result of `vsnprintf` -/
 
@@ -730,5 +903,8 @@ example : formatW 2147483647 false 10 = some (.done 10 true 10, 2) := by decide
 example : (fileRunK 3 {} [([[1, 2, 3, 10], [4, 10]], { writes := [.acc 3, .err] }), ([[5, 10]], { openOk := false })]).files = [[1, 2, 3, 10, 4, 10, 5, 10]] := by decide
 example : (fileRunK 3 {} [([[1, 10]], { openOk := false }), ([[2, 10]], { writes := [.eintr, .acc 1, .eintr] })]).files = [[1, 10, 2, 10]] := by decide
 example : ∀ a ∈ [WAns.acc 3, WAns.eintr], a.soft = true := by decide
+example : ∀ a ∈ [SAns.acc 3, SAns.eintr, SAns.again .eintr, SAns.again .err], a.soft = true := by decide
+example : (fileRunK 100 {} [([[1, 10]], {}), ([[2, 10]], { writes := [.acc 1, .eintr, .acc 1] })]).cache = [] := by decide
+example : piece 4 [1, 2, 3, 4, 5, 6] = [1, 2, 3, 4, 5, 6] ∧ pieceAsFound 4 [1, 2, 3, 4, 5] = none ∧ pieceAsFound 4 [1, 2, 3, 4] = some [1, 2, 3, 0] := by decide
 
 end Tbox.C09
